@@ -99,4 +99,207 @@ Proof.
   replace (256 * (m / 256)) with m by lia. reflexivity.
 Qed.
 
+(* --- _mul10_den *)
+Lemma mul10_eq e m neg : 0 <= e -> 0 <= m ->
+  mbf_mul10_den C (e, m, neg) =
+    let s := m / 4 + m in
+    let e1 := if s >=? 512 * hb then e + 4 else e + 3 in
+    let s1 := if s >=? 512 * hb then s / 2 else s in
+    (e1, (if m mod 4 =? 0 then s1 else Z.lor s1 1), neg).
+Proof.
+  intros He Hm. unfold mbf_mul10_den, mbf_add_den.
+  destruct (Z.eqb_spec (e + 3) 0); [lia|]. destruct (Z.eqb_spec (e + 1) 0); [lia|].
+  destruct (Z.gtb_spec (e + 1) (e + 3)); [lia|]. destruct (Z.eqb_spec (e + 1) (e + 3)); [lia|].
+  cbn [orb andb]. cbv iota beta.
+  replace (e + 3 - (e + 1)) with 2 by lia. change (Z.shiftl 1 2 - 1) with 3.
+  rewrite land3, eqb_reflx. cbn [negb andb]. rewrite andb_false_r. cbv iota.
+  rewrite Z.shiftr_div_pow2 by lia. change (2 ^ 2) with 4. rewrite den_upper_hb.
+  rewrite Z.add_comm with (n := m / 4) at 1.
+  destruct (Z.geb_spec (m + m / 4) (512 * hb)) as [Hs|Hs];
+    destruct (Z.geb_spec (m / 4 + m) (512 * hb)) as [Hs'|Hs']; try lia.
+  - cbv zeta. rewrite Z.shiftr_div_pow2 by lia. change (2 ^ 1) with 2.
+    replace (m + m / 4) with (m / 4 + m) by lia. replace (e + 3 + 1) with (e + 4) by lia.
+    destruct (Z.eqb_spec (m mod 4) 0); cbn [negb andb]; reflexivity.
+  - cbv zeta. replace (m + m / 4) with (m / 4 + m) by lia.
+    destruct (Z.eqb_spec (m mod 4) 0); cbn [negb andb]; reflexivity.
+Qed.
+
+Lemma mul10_spec e m neg : 0 <= e -> den_norm m ->
+  exists e' m', mbf_mul10_den C (e, m, neg) = (e', m', neg) /\ den_norm m' /\
+    ((e' = e + 3 /\ -4 < 4 * m' - 5 * m < 4) \/ (e' = e + 4 /\ -8 < 8 * m' - 5 * m < 8)).
+Proof.
+  unfold den_norm. intros He Hm. pose proof hb_pos as Hp. destruct hb_even as (Hh2 & Hh4 & Hh).
+  rewrite mul10_eq by lia. cbv zeta.
+  set (s := m / 4 + m).
+  destruct (Z.geb_spec s (512 * hb)) as [Hs|Hs].
+  - destruct (Z.eqb_spec (m mod 4) 0) as [Hz|Hz].
+    + exists (e + 4), (s / 2). split; [reflexivity|]. split; [unfold s in *; lia|]. right. unfold s in *. lia.
+    + exists (e + 4), (Z.lor (s / 2) 1). split; [reflexivity|]. rewrite lor_1 by (unfold s; lia).
+      destruct (Z.odd (s / 2)) eqn:Eo.
+      * split; [unfold s in *; lia|]. right. unfold s in *. lia.
+      * assert (Hev : s / 2 = 2 * (s / 2 / 2)).
+        { pose proof (Zmod_odd (s / 2)) as Ho. rewrite Eo in Ho. lia. }
+        split; [unfold s in *; lia|]. right. unfold s in *. lia.
+  - destruct (Z.eqb_spec (m mod 4) 0) as [Hz|Hz].
+    + exists (e + 3), s. split; [reflexivity|]. split; [unfold s in *; lia|]. left. unfold s in *. lia.
+    + exists (e + 3), (Z.lor s 1). split; [reflexivity|]. rewrite lor_1 by (unfold s; lia).
+      destruct (Z.odd s) eqn:Eo.
+      * split; [unfold s in *; lia|]. left. unfold s in *. lia.
+      * assert (Hev : s = 2 * (s / 2)).
+        { pose proof (Zmod_odd s) as Ho. rewrite Eo in Ho. lia. }
+        split; [unfold s in *; lia|]. left. unfold s in *. lia.
+Qed.
+
+(* exact when no bit is shifted out *)
+Lemma mul10_exact e m neg : 0 <= e -> den_norm m -> m mod 8 = 0 ->
+  mbf_mul10_den C (e, m, neg) =
+    if 5 * (m / 8) <? 256 * hb then (e + 3, 10 * (m / 8), neg) else (e + 4, 5 * (m / 8), neg).
+Proof.
+  unfold den_norm. intros He Hm H8. pose proof hb_pos as Hp. destruct hb_even as (Hh2 & Hh4 & Hh).
+  rewrite mul10_eq by lia. cbv zeta.
+  assert (H4 : m mod 4 = 0) by lia. rewrite H4. change (0 =? 0) with true. cbv iota.
+  destruct (Z.geb_spec (m / 4 + m) (512 * hb)) as [Hs|Hs];
+    destruct (Z.ltb_spec (5 * (m / 8)) (256 * hb)) as [Hq|Hq]; try lia.
+  - f_equal. f_equal. lia.
+  - f_equal. f_equal. lia.
+Qed.
+
+(* --- the long division loop of _div_den, as a structurally recursive function *)
+Fixpoint dl (k : nat) (lman work rman : Z) : Z * Z :=
+  match k with
+  | O => (lman, work)
+  | S k' => if work >? rman then dl k' (2 * lman + 1) (work - rman) (rman / 2)
+            else dl k' (2 * lman) work (rman / 2)
+  end.
+
+Lemma div_loop_dl : forall (k fuel : nat) lden rden lneg rexp rneg lman lexp work rman,
+  (k < fuel)%nat -> 0 <= rman < 2 ^ Z.of_nat k -> (k = O \/ 2 ^ (Z.of_nat k - 1) <= rman) ->
+  dec_div_den_loop_101 fuel C lden rden lneg rexp rneg lman lexp work rman =
+    Ok (fst (dl k lman work rman), lexp - Z.of_nat k, snd (dl k lman work rman), 0).
+Proof.
+  induction k as [|k IH]; intros fuel lden rden lneg rexp rneg lman lexp work rman Hf Hr Hlo.
+  - destruct fuel as [|f]; [lia|]. cbn [dec_div_den_loop_101 dl fst snd].
+    change (2 ^ Z.of_nat 0) with 1 in Hr. assert (rman = 0) by lia. subst rman.
+    change (0 >? 0) with false. cbv iota. rewrite Z.sub_0_r. reflexivity.
+  - destruct fuel as [|f]; [lia|]. cbn [dec_div_den_loop_101 dl].
+    assert (Hk : 2 ^ Z.of_nat (S k) = 2 * 2 ^ Z.of_nat k).
+    { rewrite Nat2Z.inj_succ. unfold Z.succ. rewrite pow2_split by lia. lia. }
+    assert (Hp : 0 < 2 ^ Z.of_nat k) by (apply pow2_pos; lia).
+    assert (Hge : 2 ^ Z.of_nat k <= rman).
+    { destruct Hlo as [Hlo|Hlo]; [discriminate|]. replace (Z.of_nat (S k) - 1) with (Z.of_nat k) in Hlo by lia. exact Hlo. }
+    destruct (Z.gtb_spec rman 0) as [_|]; [|lia].
+    rewrite Z.shiftl_mul_pow2, Z.shiftr_div_pow2 by lia. change (2 ^ 1) with 2.
+    rewrite Hk in Hr. clear Hlo Hk.
+    assert (Hr2 : 0 <= rman / 2 < 2 ^ Z.of_nat k) by lia.
+    assert (Hlo2 : k = O \/ 2 ^ (Z.of_nat k - 1) <= rman / 2).
+    { destruct k as [|k']; [left; reflexivity | right].
+      replace (Z.of_nat (S k')) with (1 + (Z.of_nat (S k') - 1)) in Hge by lia.
+      rewrite pow2_split in Hge by lia. change (2 ^ 1) with 2 in Hge. lia. }
+    destruct (Z.gtb_spec work rman) as [Hw|Hw]; cbn [bind]; cbv beta iota.
+    + rewrite IH by (try lia; assumption). replace (lman * 2 + 1) with (2 * lman + 1) by lia.
+      replace (lexp - Z.of_nat (S k)) with (lexp - 1 - Z.of_nat k) by lia. reflexivity.
+    + rewrite IH by (try lia; assumption). replace (lman * 2) with (2 * lman) by lia.
+      replace (lexp - Z.of_nat (S k)) with (lexp - 1 - Z.of_nat k) by lia. reflexivity.
+Qed.
+
+Lemma dl_S k l w R : dl (S k) l w R =
+  if w >? R then dl k (2 * l + 1) (w - R) (R / 2) else dl k (2 * l) w (R / 2).
+Proof. reflexivity. Qed.
+
+Lemma dl_app : forall (a b : nat) l w R, 0 <= R ->
+  dl (a + b) l w R = dl b (fst (dl a l w R)) (snd (dl a l w R)) (R / 2 ^ Z.of_nat a).
+Proof.
+  induction a as [|a IH]; intros b l w R HR.
+  - cbn [dl Nat.add fst snd]. change (2 ^ Z.of_nat 0) with 1. rewrite Z.div_1_r. reflexivity.
+  - cbn [dl Nat.add].
+    assert (Hk : 2 ^ Z.of_nat (S a) = 2 * 2 ^ Z.of_nat a).
+    { rewrite Nat2Z.inj_succ. unfold Z.succ. rewrite pow2_split by lia. lia. }
+    assert (Hp : 0 < 2 ^ Z.of_nat a) by (apply pow2_pos; lia).
+    assert (E : R / 2 ^ Z.of_nat (S a) = R / 2 / 2 ^ Z.of_nat a).
+    { rewrite Hk, Z.div_div by lia. reflexivity. }
+    rewrite E. destruct (w >? R); apply IH; lia.
+Qed.
+
+(* the exact phase: while the divisor 5 * 2^j is halved without loss *)
+Lemma dl_pow2 : forall (j : nat) l w, 0 < w <= 10 * 2 ^ Z.of_nat j ->
+  l * (10 * 2 ^ Z.of_nat j) + w = 5 * fst (dl (S j) l w (5 * 2 ^ Z.of_nat j)) + snd (dl (S j) l w (5 * 2 ^ Z.of_nat j))
+  /\ 0 < snd (dl (S j) l w (5 * 2 ^ Z.of_nat j)) <= 5.
+Proof.
+  induction j as [|j IH]; intros l w Hw.
+  - change (2 ^ Z.of_nat 0) with 1 in *. cbn [dl]. change (5 * 1) with 5.
+    destruct (Z.gtb_spec w 5); cbn [fst snd]; lia.
+  - assert (Hk : 2 ^ Z.of_nat (S j) = 2 * 2 ^ Z.of_nat j).
+    { rewrite Nat2Z.inj_succ. unfold Z.succ. rewrite pow2_split by lia. lia. }
+    assert (Hp : 0 < 2 ^ Z.of_nat j) by (apply pow2_pos; lia).
+    rewrite Hk in *. clear Hk. rewrite (dl_S (S j)).
+    assert (E : 5 * (2 * 2 ^ Z.of_nat j) / 2 = 5 * 2 ^ Z.of_nat j) by lia. rewrite E.
+    destruct (Z.gtb_spec w (5 * (2 * 2 ^ Z.of_nat j))) as [Hgt|Hle].
+    + destruct (IH (2 * l + 1) (w - 5 * (2 * 2 ^ Z.of_nat j)) ltac:(lia)) as [I1 I2]. split; [lia|exact I2].
+    + destruct (IH (2 * l) w ltac:(lia)) as [I1 I2]. split; [lia|exact I2].
+Qed.
+
+(* dividing W by 5 * 2^j with j+3 quotient bits: the quotient is 4W/5 rounded down, minus one when exact *)
+Lemma dl_ten (j : nat) W : 0 < W <= 10 * 2 ^ Z.of_nat j ->
+  let q := fst (dl (S j + 2) 0 W (5 * 2 ^ Z.of_nat j)) in 5 * q < 4 * W <= 5 * q + 5.
+Proof.
+  intros HW. assert (Hp : 0 < 2 ^ Z.of_nat j) by (apply pow2_pos; lia).
+  assert (Hk : 2 ^ Z.of_nat (S j) = 2 * 2 ^ Z.of_nat j).
+  { rewrite Nat2Z.inj_succ. unfold Z.succ. rewrite pow2_split by lia. lia. }
+  cbv zeta. rewrite dl_app by (clear Hk; lia). rewrite Hk. clear Hk.
+  assert (E : 5 * 2 ^ Z.of_nat j / (2 * 2 ^ Z.of_nat j) = 2).
+  { rewrite Z.div_mul_cancel_r by lia. reflexivity. }
+  destruct (dl_pow2 j 0 W HW) as [I1 I2].
+  set (l := fst (dl (S j) 0 W (5 * 2 ^ Z.of_nat j))) in *.
+  set (w := snd (dl (S j) 0 W (5 * 2 ^ Z.of_nat j))) in *.
+  rewrite E.
+  cbn [dl]. change (2 / 2) with 1.
+  destruct (Z.gtb_spec w 2) as [H2|H2].
+  - destruct (Z.gtb_spec (w - 2) 1); cbn [fst]; lia.
+  - destruct (Z.gtb_spec w 1); cbn [fst]; lia.
+Qed.
+
+(* --- _div10_den *)
+Hypothesis Hten : mbf_denormalise C (c_ten C) = (132, 320 * hb, false).
+
+Lemma loop102_S f lden t neg e m :
+  mbf_div10_den_loop_102 (S f) C lden t neg e m =
+    if m <? c_den_mask C then mbf_div10_den_loop_102 f C lden t neg (e - 1) (Z.shiftl m 1) else Ok (e, m).
+Proof. reflexivity. Qed.
+
+Lemma div10_spec e m neg : den_norm m ->
+  exists e' m', mbf_div10_den C (e, m, neg) = Ok (e', m', neg) /\ den_norm m' /\
+    ((e' = e - 3 /\ 5 * m' < 4 * m <= 5 * m' + 5) \/ (e' = e - 4 /\ 5 * m' < 8 * m <= 5 * m' + 10)).
+Proof.
+  unfold den_norm. intros Hm. pose proof hb_pos as Hp.
+  pose proof (mbits_ge C HC) as Hg. pose proof (mbits_le C HC) as Hl.
+  set (j := Z.to_nat (mbits C + 5)).
+  assert (Hj : 2 ^ Z.of_nat j = 64 * hb).
+  { unfold j, hb. rewrite Z2Nat.id by lia. replace (mbits C + 5) with (6 + (mbits C - 1)) by lia.
+    rewrite pow2_split by lia. reflexivity. }
+  assert (Hk : 2 ^ Z.of_nat (S j + 2) = 512 * hb /\ 2 ^ (Z.of_nat (S j + 2) - 1) = 256 * hb).
+  { unfold j, hb. replace (Z.of_nat (S (Z.to_nat (mbits C + 5)) + 2)) with (mbits C + 8) by lia. split.
+    - replace (mbits C + 8) with (9 + (mbits C - 1)) by lia. rewrite pow2_split by lia. reflexivity.
+    - replace (mbits C + 8 - 1) with (8 + (mbits C - 1)) by lia. rewrite pow2_split by lia. reflexivity. }
+  destruct Hk as [Hk1 Hk2].
+  assert (Hkk : Z.of_nat (S j + 2) = mbits C + 8) by (unfold j; lia).
+  assert (Hfuel : (S j + 2 < 1000)%nat) by (unfold j; lia).
+  assert (Hr : 320 * hb = 5 * 2 ^ Z.of_nat j) by lia.
+  assert (HW : 0 < m <= 10 * 2 ^ Z.of_nat j) by lia.
+  pose proof (dl_ten j m HW) as Hq. cbv zeta in Hq. rewrite <- Hr in Hq.
+  unfold mbf_div10_den. rewrite Hten. unfold dec_div_den.
+  rewrite (div_loop_dl (S j + 2) 1000 _ _ _ _ _ _ _ _ _ Hfuel) by (rewrite ?Hk1, ?Hk2; lia).
+  cbn [bind]. cbv beta iota.
+  set (q := fst (dl (S j + 2) 0 m (320 * hb))) in *.
+  rewrite Hkk, (ok_bias C HC).
+  replace (e - (132 - (128 + mbits C) - 8) + 1 - (mbits C + 8)) with (e - 3) by lia.
+  assert (Hneg : negb (Bool.eqb neg false) = neg) by (destruct neg; reflexivity). rewrite Hneg.
+  change 1000%nat with (S 999). rewrite loop102_S, den_mask_hb.
+  destruct (Z.ltb_spec q (256 * hb)) as [Hs|Hs].
+  - rewrite Z.shiftl_mul_pow2 by lia. change (2 ^ 1) with 2.
+    change 999%nat with (S 998). rewrite loop102_S, den_mask_hb.
+    destruct (Z.ltb_spec (q * 2) (256 * hb)) as [Hs2|Hs2]; [lia|]. cbn [bind]. cbv beta iota.
+    exists (e - 3 - 1), (q * 2). split; [reflexivity|]. split; [lia|]. right. lia.
+  - cbn [bind]. cbv beta iota. exists (e - 3), q. split; [reflexivity|]. split; [lia|]. left. lia.
+Qed.
+
 End Den.
